@@ -398,6 +398,57 @@ func runC19(c *explore.Ctx) {
 			}
 			correct[oi] = r.items
 		}
+		// faults while the segment is being loaded: Load must report an error (or, if the failed
+		// read was not needed, return a segment that answers correctly); it must not panic
+		{
+			probe := &faultRA{b: img, failFrom: -1, failOnly: -1}
+			if msg := explore.Guard(func() { ice.Load(faultData(probe, len(img))) }); msg != "" {
+				c.R.Error = "C19 fault-free load panicked: " + msg
+				return
+			}
+			loadReads := probe.reads
+			scope := "LOAD-" + names[si]
+			var lidx int64
+			for kind := 0; kind < 2; kind++ {
+				for ri := 0; ri < loadReads; ri++ {
+					my := lidx
+					lidx++
+					if !c.MineIdx(scope, my) {
+						continue
+					}
+					c.Eval()
+					c.Nontrivial()
+					ra := &faultRA{b: img, failFrom: -1, failOnly: -1}
+					if kind == 0 {
+						ra.failFrom = ri
+					} else {
+						ra.failOnly = ri
+					}
+					var seg segment.Segment
+					var err error
+					cas := fmt.Sprintf("%s #%d Load with %s failure at its read %d of %d", scope, my, []string{"persistent", "transient"}[kind], ri, loadReads)
+					if msg := explore.Guard(func() { seg, err = ice.Load(faultData(ra, len(img))) }); msg != "" {
+						c.Violate(scope, my, sigOf("C19", "load", msg), msg, cas)
+						continue
+					}
+					if err == nil && seg != nil && kind == 1 {
+						// loaded although a read failed: it must then answer correctly
+						st := &c19State{seg: seg, last: nDocs - 1}
+						for oi, op := range menu {
+							if _, isStep := stepOps[op.name]; isStep {
+								continue
+							}
+							r := runOp(op, st)
+							if r.panic != "" || (r.err == nil && strings.Join(r.items, "\x00") != strings.Join(correct[oi], "\x00")) {
+								c.Violate(scope, my, "C19/load/segment-loaded-after-failed-read-answers-wrong", fmt.Sprintf("%s: %v %s %q", op.name, r.err, r.panic, r.items), cas)
+								break
+							}
+						}
+					}
+					c.Count("load_faults_enumerated")
+				}
+			}
+		}
 		maxPrefix := 1 - si // quick: <=1 on the small segment, 0 on the 257-document one
 		if c.Thorough() {
 			maxPrefix = 2 - si
